@@ -65,6 +65,7 @@ def check_C02(ctx, tier):
         W.rule_W_MISS(ctx, d, paths)
         W.rule_W_DROP(ctx, d, paths)
         W.rule_W_KEY(ctx, d, paths)
+        W.rule_W_FRESH(ctx, d)
         if d.name == 'lfu_cache':
             _sample_paths(ctx, d, paths, lambda o: o.kind == 'return' and any(e.kind == 'EVAL' for e in o.st.events) and o.st.facts.get('archived'))
     S.rule_S_LOAD_DUMP(ctx, ctx.repo)      # load(k) finds what dump(k) wrote, at the cache level
@@ -118,6 +119,7 @@ def check_C07(ctx, tier):
         W.rule_W_DROP(ctx, d, paths)
         W.rule_W_ARCH(ctx, d, paths)
         W.rule_W_WRITERS(ctx, d)
+        W.rule_W_FRESH(ctx, d)
         if d.name == 'rr_cache':
             _sample_paths(ctx, d, paths, lambda o: o.kind == 'return' and any(e.kind == 'DUMP' for e in o.st.events))
     S.rule_S_LOAD_DUMP(ctx, ctx.repo)      # S-DUMP: dump(k) writes exactly {k: self[k]} for resident k and removes nothing
@@ -207,6 +209,7 @@ def check_C17(ctx, tier):
 
 def check_C11(ctx, tier):
     G.rule_G_FORMS(ctx, ctx.repo)
+    G.rule_G_ZERO(ctx, ctx.repo)
     G.rule_G_FIELDS(ctx, ctx.repo)
     G.rule_SIG(ctx, ctx.repo)
     G.rule_G(ctx, ctx.repo, want=('G-VAL',))       # everything that is not ignored still reaches the key
@@ -279,6 +282,7 @@ def check_C03(ctx, tier):
     A.rule_A_KEYERR(ctx, ctx.repo, cache)
     A.rule_A_KEYERR_FOUND(ctx, ctx.repo, cache)
     A.rule_A_SQLFAIL(ctx, ctx.repo, cache)
+    A.rule_A_POPKEYS(ctx, ctx.repo)               # the multi-key mutator fails before it removes anything
     A.rule_A_EQ(ctx, ctx.repo, cache)
     A.rule_A_NOCACHE(ctx, ctx.repo, cache)        # every answer comes from the store: no handle-local table that a later delete / store leaves stale
     A.rule_A_FNAME(ctx, ctx.repo, cache, aliasing=True)     # distinct keys keep distinct entry names (no new information loss in the key -> name map)
@@ -304,6 +308,7 @@ def check_C04(ctx, tier):
     A.rule_A_VIS_STAGE(ctx, ctx.repo, cache)       # a fresh handle sees no key that was never stored
     A.rule_A_ABS(ctx, ctx.repo, cache)
     A.rule_A_FNAME(ctx, ctx.repo, cache)           # a later session finds an entry under the same name
+    A.rule_A_CODEC(ctx, ctx.repo)                  # ... and decodes it with the module that encoded it
     ctx.tables['primitives'] = A.PRIMITIVES
     ctx.assume('equality of decoded values, original key types under json and stale .pyc reuse of the import-based reader are not decided')
     return ('No persistent archive method outside __init__/__drop__ assigns instance state (no handle-local content cache); every reader '
